@@ -210,6 +210,9 @@ def _canon_pid(pid):
     def b(x):
         return x.encode('ascii') if isinstance(x, str) else x
     if isinstance(pid, tuple):
+        if pid[1] is None:
+            # (oid, None): the class got lost -- not loadable
+            return ('oc-without-class', b(pid[0]))
         return ('oc', b(pid[0]))
     if isinstance(pid, (bytes, str)):
         return ('o', b(pid))
